@@ -407,7 +407,8 @@ func (e *Engine) sortOfMap(g *FuncGen, name string) string {
 
 // NewFuncGen prepares generation for one function.
 func (e *Engine) NewFuncGen(fn *ssa.Function, c *Contract) *FuncGen {
-	g := &FuncGen{eng: e, fn: fn, c: c, w: NewWorld()}
+	core := &Core{eng: e, w: NewWorld(), rootC: c}
+	g := &FuncGen{Core: core, fn: fn, c: c}
 	if fn != nil && fn.Pkg != nil {
 		g.pkg = fn.Pkg.Pkg
 	}
@@ -416,23 +417,28 @@ func (e *Engine) NewFuncGen(fn *ssa.Function, c *Contract) *FuncGen {
 	}
 	g.declared = map[string]bool{}
 	g.counts = map[string]int{}
-	g.vals = map[ssa.Value]string{}
-	g.addrs = map[ssa.Value]*Addr{}
-	g.tuples = map[ssa.Value][]string{}
 	g.fresh = map[string]bool{}
 	g.nonNil = map[string]bool{}
 	g.heapSorts = map[string]string{}
 	g.mapSortCache = map[string]string{}
 	g.assumptions = map[string]bool{}
 	g.usedContracts = map[string]bool{}
-	g.visited = map[*ssa.BasicBlock]string{}
-	g.nextKey = map[*ssa.BasicBlock]string{}
+	g.inlined = map[string]bool{}
 	g.pureDecl = map[string]bool{}
 	g.posts = map[string]*postParts{}
 	g.bytesOf = map[string]string{}
-	g.localAllocs = map[*ssa.Alloc]bool{}
 	g.mapRefKind = map[string]string{}
+	g.initFrame()
 	return g
+}
+
+func (g *FuncGen) initFrame() {
+	g.vals = map[ssa.Value]string{}
+	g.addrs = map[ssa.Value]*Addr{}
+	g.tuples = map[ssa.Value][]string{}
+	g.visited = map[*ssa.BasicBlock]string{}
+	g.nextKey = map[*ssa.BasicBlock]string{}
+	g.localAllocs = map[*ssa.Alloc]bool{}
 }
 
 // Query renders the SMT-LIB text of one obligation.
